@@ -738,7 +738,8 @@ def slim(obs):
 def run(tier, seed, replay=None):
     ctx = core.Ctx("C16", tier, seed)
     ctx.assumptions = [
-        "model coq/Model/C16Model.v is a hand transcription of parsimony.py (fitch_down_pass, fitch_up_pass, parsimony_score) and taxon_state_sets_map; tied by this correspondence run",
+        "coq/Gen/Fitch.v is regenerated on every run from parsimony.py by the fail-closed translator py/dv/gen_fitch.py (_store_sets_as_attr, _retrieve_state_sets_from_attr, fitch_down_pass, fitch_up_pass, parsimony_score); Props/C16.v proves the generated functions equal to the hand model coq/Model/C16Model.v on all inputs; trusted: the compilation scheme and the primitive semantics in coq/Model/C16Prims.v, and the static assumptions kwargs == {} / default attribute name",
+        "taxon_state_sets_map (charmatrixmodel.py) and the tree iterators are not translated: model tied by this correspondence run (C15 for the iterators)",
         "state sets are Z bitmasks of fundamental state indexes; the symbol -> state set tables of the alphabets are read from the library at run time (and compared with the documented meaning by the oracle)",
         "weights are Python ints (float weights not modelled); post-order / pre-order iteration of the tree is the structural one (C15)",
         "the model is a function of the matrix CONTENTS at the time of each call (passed per call); matrix object identity, re-use and in-place edits exist only on the implementation side and are checked against fresh copies by the oracle and against the model by the correspondence",
@@ -755,7 +756,7 @@ def run(tier, seed, replay=None):
     if tier == "thorough":
         BRUTE["leaves"] = 7
         BRUTE["assignments"] = 5000        # 4 states on 7 leaves (4^6), 5 states on 6 leaves
-    ok = core.proof_stage(ctx, ["Props/C16.vo"])
+    ok = core.proof_stage(ctx, ["Props/C16.vo"], gen_needed=("Fitch",))
     if not ok:
         core.broken_proof(ctx, search)
     n = 420 if tier == "quick" else 5000
